@@ -52,7 +52,8 @@ SPEC['C06'] = ('Overlapping writes are always detected', ['Local', 'History', 'N
   ('C06_written_to_rejected', 'Local', 'sess_written_to_rejected', 'written_to aborts as well (the resource was already modified through create_writer)'),
   ('C06_abort_only_then', 'Local', 'sess_write_abort_only', 'a write aborts with overlap/hidden only when validate_write diagnoses it'),
 ], 'The single-writer invariant is proved over whole histories through the generic invariant principle (Inv.v, StoreInv.v, History.v); the only excluded outcome is the model-only abort ABug 4 (graph search fuel).')
-SPEC['C07'] = ('Cyclic task requirements are detected instead of recursing', ['Local', 'History', 'ExecInv', 'ExecSession', 'Cert', 'Stable', 'NoBug4', 'Sim', 'Final'], [
+SPEC['C07'] = ('Cyclic task requirements are detected instead of recursing', ['Local', 'History', 'ExecInv', 'ExecSession', 'Cert', 'Stable', 'NoBug4', 'Sim', 'Final', 'NoReentry'], [
+  ('C07_no_task_entered_while_executing_any_session', 'NoReentry', 'no_task_entered_while_executing', 'for ALL programs, checkers, fuel, ALL histories and ALL sessions -- top-down requires and bottom-up builds in any mix, completed or aborted: whenever a task starts executing, no execution of it is open (opens b = the unmatched execution starts of the events before); i.e. a (transitively) self-requiring task is never recursed into, also in the bottom-up context where a task enters execution through the queue. Proof: the task in progress and its graph ancestors are protected (adjacency only grows, none is started) because every started task is reached from it and the graph is acyclic'),
   ('C07_require_of_task_on_stack_aborts', 'ExecInv', 'require_on_stack_aborts',
    'the execution stack t :: S (t executing; each task below it requires the one above through a recorded edge): requiring ANY task on the stack, at any distance, aborts with a cyclic dependency before make_task_consistent is entered (ABug 4 = model-only graph search fuel)'),
   ('C07_no_task_entered_twice', 'Final', 'session_at_most_once',
